@@ -222,7 +222,7 @@ def finish(ctx, level, explanation, assumptions, technique, extra_cov=None, seed
         'rule_kinds': sorted(set(i['kind'] for i in insts)),
         'sites_matched_total': sum(i['n_sites'] for i in insts),
         'instances': [{'k': i['kind'], 'n': i['name'], 'c': i['config'], 'sites': i['n_sites'], 'floor': i['floor'],
-                       'v': i['verdict']} for i in insts],
+                       'v': i['verdict'], **({'advisory': True} if i.get('advisory') else {})} for i in insts],
         'technique': technique,
     }
     if extra_cov:
